@@ -1,0 +1,101 @@
+//! Verification-only registry of live arena chunks (`--cfg woodpile_verif`).
+//!
+//! Every backing chunk registers its address range when it is created and
+//! removes it when it is released, so that a test harness can check that a
+//! slice handed out by this crate lies inside memory that is still alive, and
+//! can name locations by (chunk creation index, offset) instead of by address.
+//!
+//! Nothing here changes the behaviour of the crate.
+use std::collections::BTreeMap;
+use std::sync::Mutex;
+
+struct Registry {
+    live: BTreeMap<usize, (usize, u64)>, // start -> (len, creation index)
+    created: u64,
+    dropped: u64,
+}
+
+static REGISTRY: Mutex<Registry> = Mutex::new(Registry {
+    live: BTreeMap::new(),
+    created: 0,
+    dropped: 0,
+});
+
+fn registry() -> std::sync::MutexGuard<'static, Registry> {
+    match REGISTRY.lock() {
+        Ok(guard) => guard,
+        Err(poisoned) => poisoned.into_inner(),
+    }
+}
+
+pub(crate) fn chunk_created(start: usize, len: usize) {
+    let mut reg = registry();
+    let index = reg.created;
+    reg.created += 1;
+    if len == 0 {
+        return;
+    }
+
+    // Distinct owned allocations must never overlap.
+    if let Some((&prev_start, &(prev_len, _))) = reg.live.range(..=start).next_back() {
+        assert!(
+            prev_start + prev_len <= start,
+            "verif: new arena chunk overlaps a live chunk"
+        );
+    }
+    if let Some((&next_start, _)) = reg.live.range(start..).next() {
+        assert!(
+            start + len <= next_start,
+            "verif: new arena chunk overlaps a live chunk"
+        );
+    }
+    reg.live.insert(start, (len, index));
+}
+
+pub(crate) fn chunk_dropped(start: usize, len: usize) {
+    let mut reg = registry();
+    reg.dropped += 1;
+    if len == 0 {
+        return;
+    }
+
+    let removed = reg.live.remove(&start);
+    assert!(
+        matches!(removed, Some((l, _)) if l == len),
+        "verif: released arena chunk was not registered"
+    );
+}
+
+/// Returns `(start address, length, creation index)` for every live chunk.
+pub fn live_chunks() -> Vec<(usize, usize, u64)> {
+    registry()
+        .live
+        .iter()
+        .map(|(&start, &(len, index))| (start, len, index))
+        .collect()
+}
+
+/// Returns the number of live chunks and their total size in bytes.
+pub fn live_totals() -> (usize, usize) {
+    let reg = registry();
+    (reg.live.len(), reg.live.values().map(|x| x.0).sum())
+}
+
+/// Returns the number of chunks created and released so far.
+pub fn lifetime_totals() -> (u64, u64) {
+    let reg = registry();
+    (reg.created, reg.dropped)
+}
+
+/// If `[ptr, ptr + len)` lies entirely inside one live chunk, returns that
+/// chunk's `(creation index, offset of ptr in the chunk, chunk length)`.
+pub fn locate(ptr: *const u8, len: usize) -> Option<(u64, usize, usize)> {
+    let addr = ptr as usize;
+    let reg = registry();
+    let (&start, &(chunk_len, index)) = reg.live.range(..=addr).next_back()?;
+    if addr + len <= start + chunk_len {
+        Some((index, addr - start, chunk_len))
+    } else {
+        None
+    }
+}
